@@ -983,6 +983,7 @@ class Interp:
             is_method = callee.cls is not None and not callee.is_static
             skip_first = is_method and (recv is not None)
             bound = self.bind(callee, pos, kw, recv, node, p, skip_first)
+            pos, kw = _positional_prefix(callee, pos, kw, skip_first)
             recv_s = strip_typed(recv) if recv is not None else None
             do_inline = (not self.noinline and len(p.frames) <= self.max_depth
                          and not _is_generator(callee)
@@ -1012,6 +1013,7 @@ class Interp:
             if init is not None:
                 bound = self.bind(init, pos, kw, ("newself",), node, p, True)
                 bound.pop(init.params[0], None)
+                pos, kw = _positional_prefix(init, pos, kw, True)
             elif "dataclass" in ci.decorators:
                 fields = [n for n, (ann, _) in ci.attrs.items() if ann is not None]
                 for i, v in enumerate(pos):
@@ -1209,6 +1211,26 @@ def strip_typed(t):
 
 def _undefault(t):
     return t[1] if isinstance(t, tuple) and t and t[0] == "default" else t
+
+
+def _positional_prefix(callee: FuncInfo, pos: tuple, kw: tuple, skip_first: bool):
+    """Canonical argument form for a resolved callee: keywords that continue the positional prefix become positional
+    (`f(a, y=b)` and `f(a, b)` give the same term); the rest stay keywords in the order written."""
+    a = callee.node.args
+    if a.vararg is not None or any(not isinstance(k, str) for k, _ in kw):
+        return pos, kw
+    names = [x.arg for x in a.posonlyargs + a.args]
+    if skip_first and names:
+        names = names[1:]
+    if len(pos) > len(names):
+        return pos, kw
+    kwd = dict(kw)
+    newpos = list(pos)
+    i = len(pos)
+    while i < len(names) and names[i] in kwd:
+        newpos.append(kwd.pop(names[i]))
+        i += 1
+    return tuple(newpos), tuple((k, v) for k, v in kw if k in kwd)
 
 
 def _is_generator(fi: FuncInfo) -> bool:
